@@ -209,9 +209,18 @@ Definition read_only (o : op) : bool :=
   | _ => false
   end.
 
+(** what may happen between a flush and its commit (the executor runs ahead of persistence):
+    the commit of the next height, reads, and the next block's writes / snapshots; not a second
+    flush, a rollback, a reopen or an eviction *)
+Definition pending_ok (s : spec) (o : op) : bool :=
+  match o with
+  | Commit h => h =? sp_max s + 1
+  | Flush | Rollback _ | Reopen | Evict _ _ _ => false
+  | _ => true
+  end.
+
 Definition wf_op_b (s : spec) (o : op) : bool :=
-  (* between a flush and its commit only the commit of the next height and reads *)
-  (if sp_pend s then match o with Commit h => h =? sp_max s + 1 | _ => read_only o end else true) &&
+  (if sp_pend s then pending_ok s o else true) &&
   match o with
   | Revert id => match alookup N.eqb id (sp_snaps s) with Some (_, t) => negb t | None => true end
   (* LRU evictions happen while a flush fills the cache, never inside a transaction *)
@@ -351,13 +360,21 @@ Fixpoint dumps_consistent (e : env) (outs : list out) (i : N) : option N :=
   | ODb d :: t => if db_code_consistent e d then dumps_consistent e t (i + 1) else Some i
   | _ :: t => dumps_consistent e t (i + 1)
   end.
+(** number of leading steps inside the predicate's domain (no claim is made past it) *)
+Fixpoint wf_prefix (e : env) (s : spec) (ops : list op) (outs : list out) : nat :=
+  match ops, outs with
+  | o :: t, x :: t' => if wf_op_b s o then S (wf_prefix e (fst (spec_step e s o x)) t t') else O
+  | _, _ => O
+  end.
 
 Definition pb_verdict (e : env) (mode : N) (g : list hcase) : verdict :=
   let runs := map (fun h => spec_agree false e spec0 (hc_ops h) (hc_outs h) 0) g in
   let agree := if N.testbit mode 0 then first_some (map fst runs) 0 else None in
   let flushes := flat_map (fun r : option N * spec => sp_flushes (snd r)) runs in
   let rc := if N.testbit mode 1 then roots_check flushes else 0 in
-  let dumps := if N.testbit mode 3 then first_some (map (fun h => dumps_consistent e (hc_outs h) 0) g) 0 else None in
+  let dumps := if N.testbit mode 3
+               then first_some (map (fun h => dumps_consistent e (firstn (wf_prefix e spec0 (hc_ops h) (hc_outs h)) (hc_outs h)) 0) g) 0
+               else None in
   let strict := if N.testbit mode 2
                 then first_some (map (fun h => fst (spec_agree true e spec0 (hc_ops h) (hc_outs h) 0)) g) 0 else None in
   (* most severe first: failures no listed finding can explain before those one may explain *)
